@@ -407,6 +407,9 @@ pub const REGEX_VOCAB: &[(&str, &str, &str)] = &[
     ("\\S+", "a", " "),
     ("\\W", "a b", "ab"),
     ("[A-Z]", "aB", "ab"),
+    (".a", "ba", "a"),
+    (".ab", "cab", "ab"),
+    ("a.", "ab", "a"),
 ];
 
 /// A document value that should make the scalar predicate true / almost true.
